@@ -57,6 +57,7 @@ type Extractor struct {
 	seq         int
 	loops       map[*ssa.Function]map[*ssa.BasicBlock]bool
 	sinkOfField map[string]string // output buffer field -> name of the sink that appends to it
+	adders      map[*ssa.Function]int // methods of a buffer type that append what they are handed (1: one line, 2: a list)
 	EndSink     string            // the sink whose buffer the dump places last (end-of-script lines)
 }
 
@@ -91,7 +92,7 @@ func NewExtractor(w *World, role string) (*Extractor, error) {
 	// sinks by role: a method with one string parameter and no result that appends
 	// that parameter to a slice held by the converter.
 	for _, fn := range w.Funcs(role) {
-		if fn.Signature.Recv() == nil || fn.Signature.Results().Len() != 0 || len(fn.Params) != 2 || !isString(fn.Params[1].Type()) {
+		if fn.Signature.Recv() == nil || fn.Signature.Results().Len() != 0 || len(fn.Params) != 2 || !isString(fn.Params[1].Type()) || !x.isConvPtr(fn.Params[0].Type()) {
 			continue
 		}
 		for _, b := range fn.Blocks {
@@ -124,6 +125,56 @@ func NewExtractor(w *World, role string) (*Extractor, error) {
 								}
 							}
 						}
+					}
+				}
+			}
+		}
+	}
+	// a buffer type of its own: an adder appends what it is handed to the list it is a method of
+	// (or receives a pointer to); a converter method that hands its line to an adder for one of
+	// the converter's buffers is the sink of that buffer
+	x.adders = map[*ssa.Function]int{}
+	for _, fn := range w.Funcs(role) {
+		if fn.Signature.Results().Len() != 0 || len(fn.Params) != 2 || x.Sinks[fn] {
+			continue
+		}
+		if _, isPtr := fn.Params[0].Type().Underlying().(*types.Pointer); !isPtr || x.isConvPtr(fn.Params[0].Type()) {
+			continue
+		}
+		if k := adderKind(fn); k != 0 {
+			x.adders[fn] = k
+		}
+	}
+	if len(x.adders) > 0 {
+		for _, fn := range w.Funcs(role) {
+			if fn.Signature.Recv() == nil || !x.isConvPtr(fn.Params[0].Type()) || fn.Signature.Results().Len() != 0 || len(fn.Params) != 2 || !isString(fn.Params[1].Type()) {
+				continue
+			}
+			var allInstrs []ssa.Instruction
+			for _, b := range fn.Blocks {
+				allInstrs = append(allInstrs, b.Instrs...)
+			}
+			for _, ins := range allInstrs {
+				c, ok := ins.(*ssa.Call)
+				if !ok {
+					continue
+				}
+				callee := c.Call.StaticCallee()
+				if callee == nil || x.adders[callee] == 0 || len(c.Call.Args) != 2 || !handsOver(c.Call.Args[1], fn.Params[1]) {
+					continue
+				}
+				x.Sinks[fn] = true
+				if x.sinkOfField == nil {
+					x.sinkOfField = map[string]string{}
+				}
+				switch r := c.Call.Args[0].(type) {
+				case *ssa.FieldAddr:
+					if x.isConvPtr(r.X.Type()) {
+						x.sinkOfField[structFieldName(r.X.Type(), r.Field)] = fn.Name()
+					}
+				case *ssa.UnOp:
+					if fa, ok := r.X.(*ssa.FieldAddr); ok && x.isConvPtr(fa.X.Type()) {
+						x.sinkOfField[structFieldName(fa.X.Type(), fa.Field)] = fn.Name()
 					}
 				}
 			}
@@ -175,6 +226,84 @@ func NewExtractor(w *World, role string) (*Extractor, error) {
 	}
 	sort.Strings(x.Order)
 	return x, nil
+}
+
+// adderKind: fn(recv *T, line string) or fn(recv *T, lines ...string) appends its second
+// parameter to a list of strings reached through its first and stores the result back
+// there. 1: a line, 2: a list, 0: not an adder.
+func adderKind(fn *ssa.Function) int {
+	p := fn.Params[1]
+	kind := 0
+	for _, b := range fn.Blocks {
+		for _, ins := range b.Instrs {
+			c, ok := ins.(*ssa.Call)
+			if !ok {
+				continue
+			}
+			bi, ok := c.Call.Value.(*ssa.Builtin)
+			if !ok || bi.Name() != "append" || len(c.Call.Args) != 2 {
+				continue
+			}
+			k := 0
+			if c.Call.Args[1] == ssa.Value(p) {
+				k = 2
+			} else if handsOver(c.Call.Args[1], p) {
+				k = 1
+			}
+			if k == 0 {
+				continue
+			}
+			// what is extended is read through the first parameter, and the result goes back there
+			through := func(addr ssa.Value) bool {
+				switch a := addr.(type) {
+				case *ssa.Parameter:
+					return a == fn.Params[0]
+				case *ssa.FieldAddr:
+					return a.X == ssa.Value(fn.Params[0])
+				}
+				return false
+			}
+			ld, ok := c.Call.Args[0].(*ssa.UnOp)
+			if !ok || !through(ld.X) {
+				continue
+			}
+			for _, ref := range *c.Referrers() {
+				if st, ok := ref.(*ssa.Store); ok && st.Val == ssa.Value(c) && through(st.Addr) {
+					kind = k
+				}
+			}
+		}
+	}
+	return kind
+}
+
+// handsOver: v is the string p itself, or the list written [p] (a variadic argument).
+func handsOver(v ssa.Value, p *ssa.Parameter) bool {
+	if v == ssa.Value(p) {
+		return true
+	}
+	sl, ok := v.(*ssa.Slice)
+	if !ok {
+		return false
+	}
+	al, ok := sl.X.(*ssa.Alloc)
+	if !ok {
+		return false
+	}
+	n, hit := 0, false
+	for _, r := range *al.Referrers() {
+		if ia, ok := r.(*ssa.IndexAddr); ok {
+			for _, rr := range *ia.Referrers() {
+				if st, ok := rr.(*ssa.Store); ok {
+					n++
+					if st.Val == ssa.Value(p) {
+						hit = true
+					}
+				}
+			}
+		}
+	}
+	return n == 1 && hit
 }
 
 // ConverterInterface returns the transpiler.Converter interface type.
@@ -432,6 +561,45 @@ func (x *Extractor) walkAtBody(fn *ssa.Function, e *env, mf *MethodFacts, via []
 				if callee == nil {
 					continue
 				}
+				if k := x.adders[callee]; k != 0 && !x.Sinks[fn] && len(ins.Call.Args) == 2 {
+					// the adder of a buffer type called on one of the converter's buffers
+					field := ""
+					switch r := ins.Call.Args[0].(type) {
+					case *ssa.FieldAddr:
+						if x.isConvPtr(r.X.Type()) {
+							field = structFieldName(r.X.Type(), r.Field)
+						}
+					case *ssa.UnOp:
+						if fa, ok := r.X.(*ssa.FieldAddr); ok && x.isConvPtr(fa.X.Type()) {
+							field = structFieldName(fa.X.Type(), fa.Field)
+						}
+					}
+					if sink, isBuf := x.sinkOfField[field]; isBuf {
+						pos := topPos
+						if !pos.IsValid() {
+							pos = ins.Pos()
+						}
+						emitOne := func(v Val, loop bool) {
+							em := Emission{Method: mf.Name, Via: append([]string{}, via...), Sink: sink, T: norm(asTmpl(v)), Conds: x.controlConds(b, e), InLoop: loop || loops[b], Pos: pos, SinkPos: ins.Pos()}
+							x.emit(mf, em)
+						}
+						if l, ok := x.eval(ins.Call.Args[1], e).(ListV); ok {
+							if l.IsFinite {
+								for _, el := range l.Finite {
+									emitOne(el, false)
+								}
+							} else {
+								for _, el := range l.Prefix {
+									emitOne(el, false)
+								}
+								if l.Elem != nil {
+									emitOne(l.Elem, true)
+								}
+							}
+							continue
+						}
+					}
+				}
 				if x.Sinks[callee] {
 					args := ins.Call.Args
 					t := asTmpl(x.eval(args[len(args)-1], e))
@@ -493,6 +661,14 @@ func (x *Extractor) findEndSink(w *World, role string) string {
 					case *ssa.UnOp:
 						if fa, ok := y.X.(*ssa.FieldAddr); ok && x.isConvPtr(fa.X.Type()) {
 							name := structFieldName(fa.X.Type(), fa.Field)
+							if _, isBuf := x.sinkOfField[name]; isBuf {
+								last = name
+							}
+						}
+					case *ssa.FieldAddr:
+						// a buffer of a type of its own is handed on by address
+						if x.isConvPtr(y.X.Type()) && len(x.adders) > 0 {
+							name := structFieldName(y.X.Type(), y.Field)
 							if _, isBuf := x.sinkOfField[name]; isBuf {
 								last = name
 							}
